@@ -307,6 +307,9 @@ class _build(Contract):
     """C06: build establishes Repr for exactly the given points, from any prior state."""
     params = dict(self=IX, points=LPt)
     modifies = ALL_FIELDS
+    # `points` is produced by reading storage: any next() may raise (an I/O error, an undecodable row) instead of yielding (C13)
+    fallible_iter = {"points": "ReadFault"}
+    raises = {"ReadFault": staticmethod(lambda c: dict(when=z3.BoolVal(True), exact=False, ensures=lambda c2: [("index_not_valid", z3.Not(c2.self.t["_valid"].t))]))}
 
     @staticmethod
     def ghost_exit(c):
@@ -323,7 +326,7 @@ class _build(Contract):
         j = z3.Int(fresh_name("j"))
         f = c.self.t
         return [
-            ("valid", f["_valid"].t),
+            ("not_valid_while_building", z3.Not(f["_valid"].t)),
             ("time_lists_empty", z3.And(l_len(f["_timestamps"].t) == 0, l_len(f["_storage_pos_sorted_by_ts"].t) == 0)),
             ("buffer_len", l_len(buf) == t),
             ("buffer_items", forall([j], z3.Implies(z3.And(0 <= j, j < t), z3.And(t_get(l_at(buf, j), 0) == ts(l_at(pts, j)), t_get(l_at(buf, j), 1) == j)),
